@@ -145,6 +145,12 @@ def enc_stable(enc: Enc, gp: GP, x, pre, heads=None):
         if c:
             continue
         enc.add(IMP(body_f(x, b), OR(x[a] for a in h)))
+    if heads is None and gp.edges:
+        # #edge: the graph of the edges whose condition holds is acyclic <=> a topological numbering exists
+        nodes = sorted({n for u, v, _ in gp.edges for n in (u, v)})
+        nl = {n: enc.ivar(f"{pre}n{n}", 0, len(nodes)) for n in nodes}
+        for u, v, cond in gp.edges:
+            enc.add(IMP(AND(lit(x, l) for l in cond), f"(< {nl[u]} {nl[v]})"))
     atoms = gp.atoms if heads is None else heads
     for a in sorted(atoms):
         sup = []
@@ -199,7 +205,18 @@ def f_notstable(enc: Enc, gp: GP, x, pre):
             parts.append(IMP(u[a], NOT(AND([es] + others))))
     unf = enc.bvar(f"{pre}unf")
     enc.add(IMP(unf, AND(parts)))
-    return OR(viol + [unf])
+    cyc = []
+    if gp.edges:
+        # certificate of a cycle: a non-empty set of edges with true conditions in which every target has a selected successor
+        ce = {i: enc.bvar(f"{pre}cy{i}") for i in range(len(gp.edges))}
+        cparts = [OR(ce.values())]
+        for i, (u, v, cond) in enumerate(gp.edges):
+            cparts.append(IMP(ce[i], AND(lit(x, l) for l in cond)))
+            cparts.append(IMP(ce[i], OR(ce[j] for j, (u2, _, _) in enumerate(gp.edges) if u2 == v)))
+        cy = enc.bvar(f"{pre}cyc")
+        enc.add(IMP(cy, AND(cparts)))
+        cyc = [cy]
+    return OR(viol + [unf] + cyc)
 
 
 def cost_terms(gp: GP, x):
